@@ -248,6 +248,34 @@ def run(ctx: Ctx):
         ctx.case(("tau-bigperm", n))
         if not same(ref[perm], tau.tau_energy(b[perm].copy(), le[perm].copy(), u[perm].copy())):
             ctx.violation("Taus.tau_energy", "permutation", f"permuting a {n}-event batch does not permute the outputs", {"n": n})
+    # ---- batches longer than the iterator buffer whose chunks are each single-energy, at different energies (concatenated
+    # single-energy runs, sorted discrete spectra): split / permutation / per-event model must still agree
+    for v in (("3",) if not ctx.thorough else VERSIONS):
+        tv = make_taus(v)
+        gB = tv.tau_cdf_grid["beta_rad"]
+        for levels in ([8.0, 10.5, 7.25], [6.0, 12.0], [9.0, 9.0, 6.5]):
+            le = np.concatenate([np.full(8192, x) for x in levels] + [np.full(37, levels[0] + 0.125)])
+            n = len(le)
+            b = rng.uniform(gB[0], gB[-1], n); u = rng.uniform(0.001, 0.99, n)
+            ref = tv.tau_energy(b.copy(), le.copy(), u.copy())
+            parts = np.concatenate([tv.tau_energy(b[i:i + 8192].copy(), le[i:i + 8192].copy(), u[i:i + 8192].copy()) for i in range(0, n, 8192)])
+            ctx.case(("tau-chunk-energies", v, tuple(levels), "split"))
+            if not same(ref, parts):
+                bad = int(np.nonzero(~np.isclose(ref, parts, rtol=TOL, atol=0))[0][0])
+                ctx.violation("Taus.tau_energy", "split", "a batch of single-energy iterator chunks differs from its chunks evaluated separately",
+                              {"version": v, "energies_per_8192_chunk": levels, "first_bad_index": bad, "whole": float(ref[bad]), "separate": float(parts[bad]),
+                               "beta": float(b[bad]), "log_e_nu": float(le[bad]), "u": float(u[bad])})
+            perm = rng.permutation(n)
+            ctx.case(("tau-chunk-energies", v, tuple(levels), "perm"))
+            if not same(ref[perm], tv.tau_energy(b[perm].copy(), le[perm].copy(), u[perm].copy())):
+                ctx.violation("Taus.tau_energy", "permutation", "permuting a batch of single-energy iterator chunks does not permute the outputs",
+                              {"version": v, "energies_per_8192_chunk": levels})
+            idx = rng.integers(0, n, 60)
+            o = run_driver([f"tauenergy {v} {f2h(b[i])} {f2h(le[i])} {f2h(u[i])}" for i in idx])
+            for i, t_ in zip(idx, o):
+                ctx.case(("tau-chunk-energies", v, tuple(levels), int(i)))
+                if t_[0] != "ok" or not close(h2f(t_[1]), ref[i], 1e-9):
+                    ctx.disagree("C11.tau_energy.chunked-batch-vs-pointwise-model", {"version": v, "index": int(i), "model": " ".join(t_), "code": float(ref[i])})
     # ---- batch-level Lean model (masks, selected sub-batches, scatter) vs the real batch call
     for v in VERSIONS:
         tv = make_taus(v)
@@ -268,6 +296,13 @@ def run(ctx: Ctx):
             ctx.count("batchmodel_" + ["mixed", "all-valid", "all-low", "all-high"][pat])
             if o[0] != "ok" or len(o) - 1 != n or not all(close(h2f(x), y, 1e-9) for x, y in zip(o[1:], E)):
                 ctx.disagree("C11.tauEnergyBatch", {"version": v, "n": n, "model": " ".join(o)[:200], "code": E[:5].tolist()})
+            ctx.traces += 1
+            # the exit-probability batch (floor, masks, sub-batches, scatter, 10**) on a fresh object
+            P = make_taus(v).tau_exit_prob(b.copy(), le.copy())
+            o = run_driver([f"pexitbatch {v} {n} " + " ".join(f"{f2h(b[i])} {f2h(le[i])}" for i in range(n))])[0]
+            ctx.case(("pexitbatchmodel", v, trial))
+            if o[0] != "ok" or len(o) - 1 != n or not all(close(h2f(x), y, 1e-9) for x, y in zip(o[1:], P)):
+                ctx.disagree("C11.pexitBatch", {"version": v, "n": n, "model": " ".join(o)[:200], "code": P[:5].tolist()})
             ctx.traces += 1
 
 
